@@ -279,6 +279,20 @@ class NR:
 
 
 @labtech.task
+class _ple:
+    """A class name that starts with an underscore and consists only of characters that also occur in labtech's
+    key prefix 'pickle__' (a prefix is not a character set)."""
+    name: str
+    one: Any = None
+    many: Any = ()
+    named: Any = None
+    p: Any = None
+
+    def run(self):
+        return run_body(self)
+
+
+@labtech.task
 class N__U_:
     """A (legal) class name with a double underscore inside and an underscore at the end: the separators labtech
     itself uses when it builds cache keys (<format>__<type name>__<hash>)."""
@@ -292,8 +306,8 @@ class N__U_:
         return run_body(self)
 
 
-TYPES = {c.__name__: c for c in (NA, NB, NC, ND, NN, NJ, NF, NP, NAX, NS, NSJ, NSP, NM, NK, NT, NE, NZ, N__U_, NR)}
-MAX_PARALLEL = {'NR': None, 'N__U_': None, 'NSP': None, 'NZ': None, 'NE': None, 'NT': None, 'NM': 2, 'NK': 1, 'NS': None, 'NSJ': None, 'NA': None, 'NB': 1, 'NC': 2, 'ND': 3, 'NN': None, 'NJ': None, 'NF': None, 'NP': None, 'NAX': None}
+TYPES = {c.__name__: c for c in (NA, NB, NC, ND, NN, NJ, NF, NP, NAX, NS, NSJ, NSP, NM, NK, NT, NE, NZ, N__U_, NR, _ple)}
+MAX_PARALLEL = {'_ple': None, 'NR': None, 'N__U_': None, 'NSP': None, 'NZ': None, 'NE': None, 'NT': None, 'NM': 2, 'NK': 1, 'NS': None, 'NSJ': None, 'NA': None, 'NB': 1, 'NC': 2, 'ND': 3, 'NN': None, 'NJ': None, 'NF': None, 'NP': None, 'NAX': None}
 UNCACHED = {'NN', 'NM', 'NR'}
 
 
@@ -472,6 +486,16 @@ class VU:
 @labtech.task
 class VÉ:
     """A module-level task type whose (valid Python) name is not ASCII: it ends up in cache keys and directory names."""
+    p: Any = None
+    q: Any = None
+
+    def run(self):
+        return _val_run(self)
+
+
+@labtech.task
+class kick_:
+    """Lower-case class name made of characters of 'pickle__' / ending in an underscore."""
     p: Any = None
     q: Any = None
 
